@@ -20,6 +20,9 @@ func (lr LineRange) String() string {
 }
 
 func (lr LineRange) Expand() []int {
+	if lr.Last < lr.First {
+		return nil
+	}
 	lines := make([]int, 0, lr.Last-lr.First+1)
 	for i := lr.First; i <= lr.Last; i++ {
 		lines = append(lines, i)
